@@ -140,6 +140,26 @@ def law_case(case, res):
         want = dispersion.delay_s(dmx, hz(arr[i]), fx[3])
         if abs(sec(d[i]) - want) > tol(hz(arr[i]), fx[3]):
             res.violation("time_delay|array value", f"array f element {i}: {float(sec(d[i]))} vs {float(want)}", case, {"i": i})
+    # frequencies held in integer and single-precision containers (whole numbers of Hz / MHz): same law, no wrap-around
+    for fv, un, dt_ in ((4000000000, "Hz", np.int64), (1400000000, "Hz", np.int64), (100000, "MHz", np.int32), (327, "MHz", np.int16),
+                        (8000, "MHz", np.uint16), (4000000000, "Hz", np.uint64), (1400, "MHz", np.float32)):
+        for shape in ((), (2,)):
+            fi = u.Quantity(np.full(shape, fv, dtype=dt_), u.Unit(un), dtype=dt_)
+            fxi = F(fv) * (10 ** 6 if un == "MHz" else 1)
+            sub = {"dm": [dv, du], "f": [fv, un], "dtype": np.dtype(dt_).name, "shape": list(shape)}
+            for role, call, want in (("f", lambda: dm.time_delay(fi, fq[3]), dispersion.delay_s(dmx, fxi, fx[3])),
+                                     ("f_ref", lambda: dm.time_delay(fq[3], fi), dispersion.delay_s(dmx, fx[3], fxi))):
+                res.transitions += 1
+                try:
+                    d = call()
+                except Exception as e:
+                    res.violation("time_delay|integer-typed frequency raised", f"{role}: {type(e).__name__}: {e} [{sub}]", case, sub)
+                    continue
+                got = sec(d.ravel()[0] if shape else d)
+                if abs(got - want) > tol(fxi, fx[3]):
+                    res.violation("time_delay|integer-typed frequency value", f"time_delay with {role} = {fv} {un} held as "
+                                  f"{np.dtype(dt_).name}: {float(got)!r} s, law gives {float(want)!r} s", case, dict(sub, role=role))
+    res.hits["frequencies in integer containers"] += 1
     # history on ONE DM object: use it, update it in place, use it again == a fresh DM of the new value
     dmh = pb.DM(dv, u.Unit(du))
     _ = (dmh.time_delay(fq[0], fq[3]), dmh.sample_delay(fq[1], fq[2], 1 * u.MHz))
@@ -378,7 +398,7 @@ def check_case(case):
 def main(argv=None):
     return report.run_check(
         PID, gen_cases=gen_cases, check_case=check_case, describe=describe,
-        required_hits=["buffer overwritten between calls", "delay law triples", "infinite reference frequency", "DM in a non-default unit", "negative DM", "every returned sample traced",
+        required_hits=["buffer overwritten between calls", "delay law triples", "infinite reference frequency", "frequencies in integer containers", "DM in a non-default unit", "negative DM", "every returned sample traced",
                        "start_time moved", "no start time (relative alignment only)",
                        "channels realigned by different delays", "delays of both signs (reference inside band)",
                        "all delays one sign (reference outside band)", "no valid instant in span: empty signal", "dask-backed input with unequal channel chunks", "DM object updated in place", "sample_rate assigned between dedispersions", "user-defined subclass kept"],
